@@ -8,6 +8,42 @@ VERIF = os.path.dirname(os.path.dirname(os.path.abspath(__file__)))
 SEEDED = os.path.join(VERIF, 'seeded')
 
 NEEDS = {
+    'C01-r4m1': '|latitude| above about 89.4 deg and a last iteration step above ~3e-13 rad (altitude taken at the previous latitude iterate)',
+    'C01-r4m2': 'two converters on different ellipsoids in one process (function-local static const initialised from the first object)',
+    'C02-r4m1': 'a point or anchor with negative ellipsoidal height (altitude computed as a distance)',
+    'C02-r4m2': 'anchor; reset(); then the first conversion through the 2-D WGS84Coordinates overload (reads the NaN altitude reset() left)',
+    'C03-r4m1': 'standard parallels given with the larger |latitude| first (misplaced abs in the coincident-parallel guard)',
+    'C03-r4m2': 'eccentricity exactly 0 (sphere): shortcut asinh(sin lat) in both helpers',
+    'C04-r4m1': 'correspondence list of full length that pairs some source i with a target j != i',
+    'C04-r4m2': 'homogeneous point type + PreconditionedPointSet built with the scale-only compute + scale != 1',
+    'C05-r4m1': 'over-determined problem with non-zero residual through the SVD path (rows equilibrated in place)',
+    'C05-r4m2': 'index list with more entries than the source set has points',
+    'C07-r4m1': 'a non-symmetric preconditioner matrix',
+    'C07-r4m2': 'data size exactly equal to the estimate size with the Cholesky or weighted entry point',
+    'C09-r4m1': 'k == 3 with a 3-D point type on a cloud that is not exactly planar',
+    'C09-r4m2': 'a neighbourhood whose total variance is below machine epsilon in absolute value (small units / fine sampling, float)',
+    'C10-r4m1': 'angles whose composed quaternion has w < 0 (e.g. yaw beyond about pi with small roll/pitch)',
+    'C10-r4m2': 'toSpherical called with a HomogeneousCoordinates3',
+    'C11-r4m1': 'two threads calling affine * pose3d concurrently (outside the quantifier of C11: inputs only)',
+    'C11-r4m2': 'a twist covariance with non-zero correlation between linear velocity and the angular rates',
+    'C12-r4m1': 'a pose whose transformed pitch lies in (84.26, 87.13] deg',
+    'C12-r4m2': 'computeEstimateCovariance queried twice without re-solving, first variance != 1',
+    'C13-r4m1': 'interval form with a lower bound of at least one resolution (extent strictly on the positive side)',
+    'C13-r4m2': 'getCellCentersPositionAlong(0) as the first centre query, then computeCellCenterPosition',
+    'C14-r4m1': 'extent bounds that are not multiples of the resolution (alpha >= beta >= 0.5) and an end point in the last cell',
+    'C14-r4m2': 'one caster: an oblique cast, then a cast that does not move along one axis',
+    'C15-r4m1': '2-D grid, one translation with both components non-zero and dx < 0, |dx| < nx',
+    'C15-r4m2': 'a grid with exactly one cell along an axis and a non-zero translation along it',
+    'C16-r4m1': 'plain OnlineAverage, more than W updates, large magnitudes followed by small ones (incremental double update)',
+    'C16-r4m2': 'ring holding s items with 1 < s < W and W mod s != 0',
+    'C17-r4m1': 'a heartbeat (time > 0.5 s) before the first data stamp',
+    'C17-r4m2': 'expected rate >= 32 Hz (W = 64) and at least 65 stamps',
+    'C18-r4m1': 'timeout() as the first operation on a check-up (default diagnostic is STALE with an empty message)',
+    'C18-r4m2': 'a finite reliability outside [0, 1] or thresholds outside [0, 1]',
+    'C19-r4m1': 'two concurrent producers calling store()',
+    'C19-r4m2': 'reader calling isAvailable() while the writer is in the fill phase of the window',
+    'C20-r4m1': '3-D box that is not elongated and a query point near a corner',
+    'C20-r4m2': 'an included interval with zero width on some axis that extends beyond the receiver',
     'C01-r3m1': 'latitude exactly 0 or a Cartesian input with Z == 0 (altitude = Z / sin(latitude))',
     'C01-r3m2': 'two consecutive toECEF calls on one converter with identical latitude/longitude and different heights (member cache keyed on lat/lon)',
     'C02-r3m1': 'anchor(A); reset(); toENU(P) with P at the latitude/longitude of A (shortcut in front of the auto-anchor test reads the stale anchor)',
